@@ -69,14 +69,16 @@ class Ctx:
     def loc(self, name):
         return self.funcs[name].loc()
 
-    def interp(self, externals=None):
+    def interp(self, externals=None, chain=()):
         e10 = self.e10
         ext = {"bell": lambda n, k, seq: e10.bell_incomplete(n, k, list(seq))}
         ext.update(externals or {})
-        return e10.Interp(self.nodes, ext)
+        it = e10.Interp(self.nodes, ext)
+        it.chain = list(chain)
+        return it
 
-    def run(self, name, kw, externals=None):
-        it = self.interp(externals)
+    def run(self, name, kw, externals=None, chain=()):
+        it = self.interp(externals, chain)
         try:
             return it.call_def(self.nodes[name], [], kw, {})
         except self.e10.Undecided as e:
@@ -240,7 +242,7 @@ class Captured(Exception):
     pass
 
 
-def _solver_run(cx, which, K, with_tf, no_derivs, const=False):
+def _solver_run(cx, which, K, with_tf, no_derivs, const=False, descending=False):
     """Evaluate a solver up to and beyond the SciPy call; returns (captured call, returned value)."""
     sp = _sp()
     e10 = cx.e10
@@ -274,7 +276,11 @@ def _solver_run(cx, which, K, with_tf, no_derivs, const=False):
     missing = [k for k in kw if k not in ps]
     if missing:
         raise AnalysisError(f"unrecognised signature of ode.{which}: no parameter(s) {missing}")
-    ret = cx.run(which, kw, ext)
+    chain = ()
+    if which == "solve_ode_ivp":
+        # the two orderings of the integration span (integrating upwards / downwards)
+        chain = [sp.Symbol("X1"), sp.Symbol("X0")] if descending else [sp.Symbol("X0"), sp.Symbol("X1")]
+    ret = cx.run(which, kw, ext, chain)
     if "args" not in cap:
         raise AnalysisError(f"ode.{which} does not reach a call of SciPy's solver")
     return cap, ret, kw
@@ -287,6 +293,42 @@ def _apply(cx, closure, *args):
         raise AnalysisError(f"a nested function of ode.py is outside the fragment the symbolic array evaluator knows: {e}") from e
     except (IndexError, ValueError, TypeError, KeyError) as e:
         raise AnalysisError(f"the evaluation of a nested function over symbolic arrays failed ({type(e).__name__}: {e})") from e
+
+
+def _check_t5(rep, cx, cap, K, with_tf, cfg, here):
+    sp = _sp()
+    span = cap["args"][1] if len(cap["args"]) > 1 else cap["kw"].get("t_span")
+    y0 = cap["kw"].get("y0", cap["args"][2] if len(cap["args"]) > 2 else None)
+    if span is None or y0 is None:
+        raise AnalysisError("solve_ode_ivp: cannot identify t_span / y0 of the SciPy call")
+    span, y0 = list(span), list(y0)
+    X = [sp.Symbol("X0"), sp.Symbol("X1")]
+    want_span = [sp.Function("R")(x) for x in X] if with_tf else X
+    if len(span) != 2 or any(not _zero(a - b) for a, b in zip(span, want_span)):
+        rep.violation("T5.initial-data-mapping", "ode.solve_ode_ivp", "span",
+                      f"{cfg}: the integration span handed to SciPy is {[str(s) for s in span]}, expected "
+                      f"{[str(s) for s in want_span]}", here)
+    C = [sp.Symbol(f"C{k}") for k in range(K)]
+    if len(y0) != K:
+        rep.violation("T5.initial-data-mapping", "ode.solve_ode_ivp", "y0",
+                      f"{cfg}: {len(y0)} initial values are handed to SciPy for a system of {K}", here)
+    elif with_tf:
+        gv = [sp.Function(f"G{i}")(X[0]) for i in (1, 2, 3)]
+        _, T, y, g = _reference(max(K - 1, 1), [sp.Integer(0)] * (max(K - 1, 1) + 1), gv)
+        sub = {y[j]: y0[j] for j in range(min(K, len(y)))}
+        sub.update({g[m]: gv[m - 1] for m in range(1, min(len(g), 4))})
+        for k in range(K):
+            back = sp.simplify(T[k].subs(sub) - C[k]) if k else sp.simplify(y0[0] - C[0])
+            if back != 0:
+                rep.violation("T5.initial-data-mapping", "ode.solve_ode_ivp", f"y0[{k}]",
+                              f"{cfg}: with the initial state handed to SciPy the derivative d^{k}y/dx^{k} at "
+                              f"the initial point is `{_show(sp.simplify(T[k].subs(sub)))}`, not the caller's value C{k} "
+                              f"(the chain rule must be applied at the original initial point x_span[0])", here)
+    else:
+        for k in range(K):
+            if not _zero(y0[k] - C[k]):
+                rep.violation("T5.initial-data-mapping", "ode.solve_ode_ivp", f"y0[{k}]",
+                              f"{cfg}: initial value {k} handed to SciPy is `{_show(y0[k])}`", here)
 
 
 def rule_solvers(rep, cx):
@@ -340,40 +382,12 @@ def rule_solvers(rep, cx):
                 rep.ok("T4.first-order-system", f"{which}.func[{cfg}]", here, "rows y[1:], last row explicit form")
                 # ---- T5 / T7: what is handed to SciPy
                 if which == "solve_ode_ivp":
-                    span = cap["args"][1] if len(cap["args"]) > 1 else cap["kw"].get("t_span")
-                    y0 = cap["kw"].get("y0", cap["args"][2] if len(cap["args"]) > 2 else None)
-                    if span is None or y0 is None:
-                        raise AnalysisError("solve_ode_ivp: cannot identify t_span / y0 of the SciPy call")
-                    span, y0 = list(span), list(y0)
-                    X = [sp.Symbol("X0"), sp.Symbol("X1")]
-                    want_span = [sp.Function("R")(x) for x in X] if with_tf else X
                     n5 += 1
-                    if len(span) != 2 or any(not _zero(a - b) for a, b in zip(span, want_span)):
-                        rep.violation("T5.initial-data-mapping", "ode.solve_ode_ivp", "span",
-                                      f"{cfg}: the integration span handed to SciPy is {[str(s) for s in span]}, expected "
-                                      f"{[str(s) for s in want_span]}", here)
-                    C = [sp.Symbol(f"C{k}") for k in range(K)]
-                    if len(y0) != K:
-                        rep.violation("T5.initial-data-mapping", "ode.solve_ode_ivp", "y0",
-                                      f"{cfg}: {len(y0)} initial values are handed to SciPy for a system of {K}", here)
-                    elif with_tf:
-                        gv = [sp.Function(f"G{i}")(X[0]) for i in (1, 2, 3)]
-                        _, T, y, g = _reference(max(K - 1, 1), [sp.Integer(0)] * (max(K - 1, 1) + 1), gv)
-                        sub = {y[j]: y0[j] for j in range(min(K, len(y)))}
-                        sub.update({g[m]: gv[m - 1] for m in range(1, min(len(g), 4))})
-                        for k in range(K):
-                            back = sp.simplify(T[k].subs(sub) - C[k]) if k else sp.simplify(y0[0] - C[0])
-                            if back != 0:
-                                rep.violation("T5.initial-data-mapping", "ode.solve_ode_ivp", f"y0[{k}]",
-                                              f"{cfg}: with the initial state handed to SciPy the derivative d^{k}y/dx^{k} at "
-                                              f"the initial point is `{_show(sp.simplify(T[k].subs(sub)))}`, not the caller's value C{k} "
-                                              f"(the chain rule must be applied at the original initial point x_span[0])", here)
-                    else:
-                        for k in range(K):
-                            if not _zero(y0[k] - C[k]):
-                                rep.violation("T5.initial-data-mapping", "ode.solve_ode_ivp", f"y0[{k}]",
-                                              f"{cfg}: initial value {k} handed to SciPy is `{_show(y0[k])}`", here)
-                    rep.ok("T5.initial-data-mapping", f"solve_ode_ivp[{cfg}]", here, "span and initial state")
+                    _check_t5(rep, cx, cap, K, with_tf, cfg, here)
+                    if with_tf:
+                        cap_d, _, _ = _solver_run(cx, which, K, with_tf, no_derivs=False, descending=True)
+                        _check_t5(rep, cx, cap_d, K, with_tf, cfg + ", span integrated downwards", here)
+                    rep.ok("T5.initial-data-mapping", f"solve_ode_ivp[{cfg}]", here, "span and initial state, both directions")
                 else:
                     bc = cap["args"][1] if len(cap["args"]) > 1 else cap["kw"].get("bc")
                     mesh = cap["args"][2] if len(cap["args"]) > 2 else cap["kw"].get("x")
